@@ -213,7 +213,7 @@ pub fn main(o: &Opts) -> i32 {
         Tier::Quick => program_space2(3, 1, 1),
         Tier::Thorough => {
             let mut p = program_space(4, 1);
-            let mut extra = program_space(2, 2);
+            let mut extra = program_space2(3, 2, 0);
             extra.retain(|p| p.closures.iter().any(|c| c.len() == 2));
             p.extend(extra);
             p
@@ -225,7 +225,7 @@ pub fn main(o: &Opts) -> i32 {
         let v: Value = serde_json::from_str(&std::fs::read_to_string(path).unwrap()).unwrap();
         progs.retain(|p| Some(p.name().as_str()) == v["case"]["program"].as_str());
     }
-    rep.bounds = json!({"programs": progs.len(), "space": if o.tier == Tier::Quick { "P(3,1) (second closures for phase-1 length <= 1) + S(5)" } else { "P(4,1) + P(2,2) + S(9)" },
+    rep.bounds = json!({"programs": progs.len(), "space": if o.tier == Tier::Quick { "P(3,1) (second closures for phase-1 length <= 1) + S(5)" } else { "P(4,1) + P(3,2) + S(9)" },
         "deviated_proofs": "P(1,1) + small size family + extras: each point slot += B (R slots += B_blinding), each absorbed scalar += 1; the verifier's recorded transcript must carry the replaced element"});
     rep.curves = CURVES.iter().map(|s| s.to_string()).collect();
     rep.rule = "for every program an honest prover run and verifier run are recorded at the Merlin API; a monitor automaton (the protocol's fixed order with expected payloads computed from the program, the commitments and the decoded proof) consumes the main-transcript events of each role; then role synchrony, fork discipline and the follow-up challenge of the returned transcripts are checked".into();
